@@ -444,6 +444,9 @@ def cases(tier, seed):
                             c.symcost = best[0]; add(c)
                 # ---- boolean-valued trees (comparisons, logic): scalar path by construction; fewer sizes
                 bts = bool_trees(FT if flt else IT, rng, 10 if thorough else 5)
+                # every ordering comparison once with the scalar on the LEFT and once on the right (s < A is not A < s)
+                sl = [cm(op, S_, T_('a')) for op in ('lt', 'gt', 'le', 'ge')] + [cm(op, T_('a'), S_) for op in ('lt', 'ge')]
+                bts = (sl if thorough else sample(rng, sl[:4], 2) + sample(rng, sl[4:], 1)) + bts
                 bs = sample(rng, sizes, 6 if thorough else 3) + [V, 2 * V + 1]
                 for i, t in enumerate(bts):
                     for n in (bs[i % len(bs)], V + 1, V, 3, 1):
